@@ -217,6 +217,24 @@ func c15Hists() []c15hist {
 				vtime.Sleep(2700 * time.Millisecond)
 			},
 			Expect: func(e *c15env) []string { return noneAfter(e, "A", "end", "cascade-deleted") }},
+		{Name: "rescheduled-by-its-own-action", Live: 1,
+			// the rule replaces itself, under its own id, with a rule on a far-away
+			// schedule WHILE its tick is running: the replacement must win
+			Run: func(e *c15env) {
+				rule := `{"schedule":"` + c15Every + `","action":{"code":"Env.AddRule('r', {schedule: '0 0 0 1 1 * 2099', action: {code: '2'}});"}}`
+				_, err := e.sys.AddRule(e.ctx(), "A", "r", rule)
+				must(err)
+				vtime.Sleep(1500 * time.Millisecond)
+				e.mark("end")
+				vtime.Sleep(2700 * time.Millisecond)
+			},
+			Expect: func(e *c15env) []string {
+				bad := noneAfter(e, "A", "end", "rescheduled")
+				if e.count("A", -1) == 0 {
+					bad = append(bad, "live-scheduled-rule-not-evaluated:before:rule r of A was never evaluated while it was alive")
+				}
+				return bad
+			}},
 		{Name: "restart-with-a-fresh-cron", Live: 1,
 			Run: func(e *c15env) {
 				e.addRule("A", c15Every, "")
@@ -312,7 +330,7 @@ func init() {
 	lib.Register(&lib.Check{
 		ID:    "C15",
 		Level: "model_checking",
-		Rule: "schedule exploration with virtual time (deviation bound 2 quick / 3 thorough) of a sys.System wired to the real cron.InternalCron over a real cron.Cron, one client thread running 8 short histories (same id in two locations: remove one / one-shot in one; replaced by an ordinary rule; overwritten by a fact; removed; cleared; cascade-deleted; restart with a fresh cron), both states; rule evaluations observed through the App.ProcessBindings hook; " +
+		Rule: "schedule exploration with virtual time (deviation bound 2 quick / 3 thorough) of a sys.System wired to the real cron.InternalCron over a real cron.Cron, one client thread running 9 short histories (a rule that reschedules itself from its own action while its tick runs; same id in two locations: remove one / one-shot in one; replaced by an ordinary rule; overwritten by a fact; removed; cleared; cascade-deleted; restart with a fresh cron), both states; rule evaluations observed through the App.ProcessBindings hook; " +
 			"states = distinct observed outcomes, traces = schedules executed",
 		Assumptions: []string{
 			"an evaluation counts as 'after' a call only if its virtual instant is strictly later than the instant the call returned",
